@@ -830,10 +830,6 @@ func (vfs *OrefaFS) Rename(oldname, newname string) error {
 	oAbsPath, _ := vfs.Abs(oldname)
 	nAbsPath, _ := vfs.Abs(newname)
 
-	if oAbsPath == nAbsPath {
-		return nil
-	}
-
 	oDirName, oFileName := avfs.SplitAbs(vfs, oAbsPath)
 	nDirName, nFileName := avfs.SplitAbs(vfs, nAbsPath)
 
@@ -855,6 +851,20 @@ func (vfs *OrefaFS) Rename(oldname, newname string) error {
 	if !nChildOk && !nParent.mode.IsDir() && vfs.OSType() != avfs.OsWindows {
 		// The new name is below a file.
 		return &os.LinkError{Op: op, Old: oldname, New: newname, Err: vfs.err.NotADirectory}
+	}
+
+	if oAbsPath == nAbsPath {
+		if oChild.mode.IsDir() && vfs.OSType() != avfs.OsWindows {
+			// os.Rename refuses an existing directory as new name, the directory itself included.
+			return &os.LinkError{Op: op, Old: oldname, New: newname, Err: vfs.err.FileExists}
+		}
+
+		return nil
+	}
+
+	if nChildOk && nChild == oChild {
+		// Both names are hard links to the same file: rename(2) does nothing.
+		return nil
 	}
 
 	if oChild.mode.IsDir() && strings.HasPrefix(nAbsPath, oAbsPath+string(vfs.PathSeparator())) {
